@@ -18,7 +18,10 @@ The model describes the code after the `fix:` commits F5 (extended-router length
 F6 (`DstPriority` stored), F14 (enterprise-specific samples skipped by their declared length) and F19:
 a sampled header the dissector rejects leaves its record out instead of failing the datagram (F19a; an
 empty header is not read at all), the flow sample keeps the 24-bit source id index (F19b), an
-extended-router record of a length other than 16 / 28 is skipped by its declared length (F19d).
+extended-router record of a length other than 16 / 28 is skipped by its declared length (F19d); and F33: a
+raw-header record is reported as `sflow.RawHeader` — its own four words (header protocol, frame length,
+stripped, header length) and, embedded, the packet the sampled octets dissect to (absent when the dissector
+rejects them: the four words are still the record).
 Core Lean only.
 -/
 namespace Vflow.Sflow
@@ -124,16 +127,26 @@ structure ExtRouter where
   dstMask : Nat
 deriving DecidableEq, Repr
 
+/-- `sflow.RawHeader` (F33): what a raw packet header record is reported as — the four words of the record as
+read from the wire and the embedded `*packet.Packet` (`none` = nil: the dissector rejected the sampled octets) -/
+structure RawHeader where
+  protocol : Nat
+  frameLength : Nat
+  stripped : Nat
+  headerLength : Nat
+  pkt : Option Pkt
+deriving DecidableEq, Repr
+
 /-- what one iteration of the flow-record loop stores -/
 inductive FlowRec where
-  | raw (p : Pkt)
+  | raw (h : RawHeader)
   | sw (s : ExtSwitch)
   | rtr (r : ExtRouter)
 deriving DecidableEq, Repr
 
 /-- `FlowSample.Records` (a map with at most the keys ExtRouter, ExtSwitch, RawHeader) -/
 structure FlowRecs where
-  raw : Option Pkt := none
+  raw : Option RawHeader := none
   sw : Option ExtSwitch := none
   rtr : Option ExtRouter := none
 deriving DecidableEq, Repr
@@ -229,12 +242,13 @@ end of the datagram `bytes.Reader.Read` reports `io.EOF` even for it -/
 def readHdr (n : Nat) (bs : Bytes) : Option (Bytes × Bytes) :=
   if n = 0 then some ([], bs) else rawRead n bs
 
-/-- `SampledHeader.unmarshal` + `Packet.Decoder` (after the F19a repair): the record is consumed (four
-words, header octets, XDR padding) before the dissector runs; a dissector *error* yields no packet
-(`none`: the record is left out of `Records`) and no error.  Read errors stay errors. -/
-def decodeSampledHeader (bs : Bytes) : Res (Option Pkt × Bytes) :=
+/-- `decodeSampledHeader` = `SampledHeader.unmarshal` + `Packet.Decoder` (after the F19a and F33 repairs): the
+record is consumed (four words, header octets, XDR padding) before the dissector runs; the result carries the
+four words as read (F33: they used to be dropped) and the dissector's packet — a dissector *error* yields no
+packet (`pkt := none`, the embedded pointer stays nil) and no error.  Read errors stay errors. -/
+def decodeSampledHeader (bs : Bytes) : Res (RawHeader × Bytes) :=
   match readFields [4, 4, 4, 4] bs with
-  | some ([proto, _frameLen, _stripped, hl], r) =>
+  | some ([proto, frameLen, stripped, hl], r) =>
     if hl > 1500 then .err .hdrLen else
     match readHdr (hl + (4 - hl % 4) % 4) r with         -- make([]byte, HeaderLength+tmp); r.Read
     | none => .err .eof
@@ -242,8 +256,8 @@ def decodeSampledHeader (bs : Bytes) : Res (Option Pkt × Bytes) :=
       match slice? buf 0 hl with                          -- sh.Header[:sh.HeaderLength]
       | .ok hdr =>
         match dissect hdr proto with
-        | .ok p => .ok (some p, r')
-        | .err _ => .ok (none, r')                        -- return nil, nil
+        | .ok p => .ok (⟨proto, frameLen, stripped, hl, some p⟩, r')   -- rh.Packet = d
+        | .err _ => .ok (⟨proto, frameLen, stripped, hl, none⟩, r')    -- rh.Packet stays nil
         | .panic => .panic
         | .fuel => .fuel
       | .err e => .err e
@@ -289,7 +303,7 @@ def flowRecord (bs : Bytes) : Res (Option FlowRec × Bytes) :=
     match u32 r1 with
     | none => .err .eof
     | some (len, r2) =>
-      if fmt = 1 then (decodeSampledHeader r2).mapFst (fun o => o.map FlowRec.raw)   -- if d != nil { Records["RawHeader"] = d }
+      if fmt = 1 then (decodeSampledHeader r2).mapFst (fun h => some (.raw h))      -- Records["RawHeader"] = d
       else if fmt = 1001 then (decodeExtSwitch r2).mapFst (fun s => some (.sw s))
       else if fmt = 1002 then
         if len ≠ 16 ∧ len ≠ 28 then .ok (none, r2.drop len)   -- F19d: r.Seek(int64(rTypeLength), 1); continue
